@@ -212,6 +212,10 @@ def observe_write(case: dict, scratch: str = None) -> dict:
     results = []
     for i in range(1, case["nrec"] + 1):
         records.append(DummyRecord(seq="ACGTTGCA" * 4, record_id=f"rec{i}"))
+        if (i + case["nmod"]) % 2 == 0:
+            # every other record was skipped by an earlier stage (too short, outside the record limit, no regions):
+            # a failure in its results is a failure like any other
+            records[-1].skip = "skipped earlier in the run"
         modules = {}
         for j in range(1, case["nmod"] + 1):
             here = (fault["i"], fault["j"]) == (i, j)
